@@ -205,7 +205,7 @@ def mutate_text(rng, text, other):
         lines.pop()
     k = rng.choice(['insert', 'delete', 'dup', 'move', 'ws_tail', 'ws_head', 'crlf_one', 'crlf_all',
                     'cr_mid', 'dash_add', 'dash_del', 'concat', 'concat_blank', 'flip_body',
-                    'flip_sig', 'none', 'blank_around', 'no_final_nl', 'swap', 'longline', 'longline', 'nul_tail', 'nul_tail', 'nul_sep', 'nul_sep'])
+                    'flip_sig', 'none', 'blank_around', 'no_final_nl', 'swap', 'longline', 'longline', 'nul_tail', 'nul_tail', 'nul_sep', 'nul_sep', 'hdr_long', 'hdr_long'])
     nl = True
     i = rng.randrange(len(lines)) if lines else 0
     if k == 'insert':
@@ -227,6 +227,16 @@ def mutate_text(rng, text, other):
         # test matches the terminator), str.split() keeps them inside the last word
         tail = rng.choice(['\x00', '\x00\x00 ', ' \x00', '\x00\t\x00'])
         lines[i] = (lines[i].rstrip(' \t') if rng.random() < 0.5 else lines[i]) + tail
+    elif k == 'hdr_long' and lines:
+        # gpg skips armor-header lines of 20000 bytes or more without a word: a blank one (the end of the
+        # headers for everybody else) followed by an entry padded to that length, then the real blank line
+        try:
+            b = lines.index('-----BEGIN PGP SIGNED MESSAGE-----')
+            j = next(x for x in range(b + 1, len(lines)) if not lines[x].strip())
+            evil = 'DATA evil.bin 0'
+            lines[j:j] = [' ' * 20000, evil + ' ' * (20000 - len(evil))]
+        except (ValueError, StopIteration):
+            pass
     elif k == 'nul_sep' and lines:
         # the blank line that ends the armor headers replaced by a line holding NUL (and blanks) only: blank
         # for gpg, which drops NUL with the trailing white space - not for str.strip()
